@@ -21,6 +21,12 @@
 
 using namespace vh;
 
+template <int... Is>
+static void emitIds(ISeq<Is...>) {
+	const long ids[] = { static_cast<long>(FSM::stateId<St<Is>>())... };
+	for (long v : ids) { g_rec.s(","); g_rec.i(v); }
+}
+
 static void emitCfg() {
 	g_rec.s("{\"e\":\"cfg\",");
 	g_rec.kv("N", VH_N); g_rec.kv("L", VH_L);
@@ -45,6 +51,8 @@ static void emitCfg() {
 	for (int i = 0; i < VH_N; ++i) { g_rec.s(","); g_rec.i(injCount(i)); }
 	g_rec.s("],\"def\":["); g_rec.i(VH_HEAD ? static_cast<long>(classMask(NONE)) : 0);
 	for (int i = 0; i < VH_N; ++i) { g_rec.s(","); g_rec.i(static_cast<long>(classMask(i))); }
+	g_rec.s("],\"ids\":["); g_rec.i(VH_HEAD ? static_cast<long>(FSM::stateId<Root>()) : 255);
+	emitIds(MkSeq<VH_N>::Type());
 	g_rec.s("]}\n");
 }
 
